@@ -13,6 +13,7 @@ CONSTANTS
   ReadFaultKinds <- RF_tomb
   AllowSoleRecordLoss = FALSE
   AllowIntraSetCollision = FALSE
+  AllowContinueAfterVolatile = TRUE
   RelevantSignersOnly = TRUE
 SPECIFICATION Spec
 VIEW View
